@@ -87,9 +87,10 @@ P("C06", [f"{RED}:merge_breakpoints", f"{RED}:CoolerMerger.__iter__"], "bounded/
   "Proof core: the merge-epoch partition (merge_breakpoints: bisect loop with invariant and variant, for k = 1,2,3 input indexes and every buffer size) ends exactly where every input is exhausted and is strictly increasing. Bounded stand-in for the rest (all small record multisets x partitions x orders x mergebuf x max_merge). The merge loop itself (CoolerMerger.__iter__, k = 1,2,3 inputs, merge_breakpoints applied by contract) is verified with the invariant starts[i] == index_i[P[t]]: each epoch reads from every input exactly the slice between two consecutive boundaries - cut only at row offsets, so a bin1 row is never split - every input with records in an epoch is read in it exactly once, inputs contribute in order, the epoch is the sorted groupby(bin1_id, bin2_id).aggregate(agg) of their concatenation, and at the end every input is read to its nnz: every input record is read exactly once for every buffer size.",
   level="other", unverified=["create_from_unordered (sort pass / two-pass merge plan over temporary files)", "pandas concat / groupby / aggregate (assumed by the merge-loop stubs)"])
 
-P("C07", [f"{RED}:merge_breakpoints", f"{RED}:CoolerMerger.__iter__", f"{UT}:get_binsize", f"{ING}:_validate_pixels", f"{CR}:write_pixels"], "bounded/C07.py",
-  "Proof core: merge_breakpoints (shared with C06); write_pixels (the append loop the merged stream goes through) is verified with ghost dataset contents for EVERY number of chunks and chunk lengths: each pixel column is the concatenation of the chunks in order, its length is the returned nnz, the returned total is the sum of the count column in the integer AND the float configuration (no truncation of float sums). The merge loop itself (CoolerMerger.__iter__, k = 1,2,3 inputs, merge_breakpoints applied by contract) is verified with the invariant starts[i] == index_i[P[t]]: each epoch reads from every input exactly the slice between two consecutive boundaries - cut only at row offsets, so a bin1 row is never split - every input with records in an epoch is read in it exactly once, inputs contribute in order, the epoch is the sorted groupby(bin1_id, bin2_id).aggregate(agg) of their concatenation, and at the end every input is read to its nnz: every input record is read exactly once for every buffer size. Bounded stand-in for the rest (all small input families x mergebuf x orders x nestings x dtype limits).",
-  level="other", unverified=["CoolerMerger.__init__ / merge_coolers (compatibility checks)", "pandas concat / groupby-sum (assumed by the merge-loop stubs)"])
+P("C07", [f"{RED}:merge_breakpoints", f"{RED}:CoolerMerger.__init__", f"{RED}:CoolerMerger.__iter__", f"{RED}:merge_coolers",
+          f"{UT}:get_binsize", f"{ING}:_validate_pixels", f"{CR}:write_pixels"], "bounded/C07.py",
+  "Proof core: merge_breakpoints (shared with C06); write_pixels (the append loop the merged stream goes through) is verified with ghost dataset contents for EVERY number of chunks and chunk lengths: each pixel column is the concatenation of the chunks in order, its length is the returned nnz, the returned total is the sum of the count column in the integer AND the float configuration (no truncation of float sums). The merge loop itself (CoolerMerger.__iter__, k = 1,2,3 inputs, merge_breakpoints applied by contract) is verified with the invariant starts[i] == index_i[P[t]]: each epoch reads from every input exactly the slice between two consecutive boundaries - cut only at row offsets, so a bin1 row is never split - every input with records in an epoch is read in it exactly once, inputs contribute in order, the epoch is the sorted groupby(bin1_id, bin2_id).aggregate(agg) of their concatenation, and at the end every input is read to its nnz: every input record is read exactly once for every buffer size. CoolerMerger.__init__ accepts the inputs iff they share the bin table (fixed size: same size and same chromosome names AND lengths as the first input; variable: same table row for row), and merge_coolers (k = 2,3) puts all inputs in order into one merger with the caller's buffer/columns/agg, creates the output from the first input's bins and assembly with that merger as stream, is symmetric iff all inputs are (mixed refused), requires every requested column in every input and gives it the caller's dtype or numpy.result_type over ALL inputs. Bounded stand-in for the rest (all small input families x mergebuf x orders x nestings x dtype limits).",
+  level="other", unverified=["pandas concat / groupby-sum, table equality, numpy.result_type (assumed by the stubs)", "integer overflow inside pandas group-by sum (known finding)"])
 
 P("C08", [f"{RED}:_greedy_prune_partition", f"{RED}:CoolerCoarsener.__init__", f"{UT}:get_binsize"], "bounded/C08.py",
   "Proof core: CoolerCoarsener.__init__ builds, for every chromosome layout, factor and chunk size, a pixel partition whose every edge is the offset of a coarse-row start (bin1_offset[chrom_offset[c] + g*factor]) or nnz (loop invariant with ghost witnesses; Cooler/GenomeSegmentation by assumed models), and _greedy_prune_partition keeps only values of that edge list, ordered, from 0 to nnz - so no coarse row is ever split across spans; get_binsize (which decides the re-binning path) is truthful (C20). Bounded stand-in for the rest (all small coolers x factors x chunk sizes x workers against a block-aggregate model).",
